@@ -1,0 +1,17 @@
+//go:build verif
+
+// Export shim for the external verification harness (/verif, property C17 part B: storage-key
+// injectivity). Compiled only with the build tag `verif`. Thin wrappers that make the unexported
+// put/get storage helpers reachable as black-box key constructors; no contract logic lives here.
+
+package neo3
+
+import "github.com/polynetwork/poly/native"
+
+func VerifPutConsensusValByChainId(native *native.NativeService, neoConsensus *NeoConsensus) error {
+	return putConsensusValByChainId(native, neoConsensus)
+}
+
+func VerifGetConsensusValByChainId(native *native.NativeService, chainID uint64) (*NeoConsensus, error) {
+	return getConsensusValByChainId(native, chainID)
+}
